@@ -197,16 +197,18 @@ theorem element_blo {ext : Ext} {x : SVal} {path sfs s idx key done} {S : List S
 /-! ### `StructBuilder::end` -/
 
 theorem endFields_blo {path : String} {S : List String} : ∀ (fs : BL) (seen : List Bool) (sfs : Fields), Kids path fs sfs →
+    1 ≤ roomL fs →
     (∀ (j : Nat) f, sfs.toList[j]? = some f → seen[j]? = some false → f.nullable = false → path ∈ S) →
     (∀ (j : Nat) f, sfs.toList[j]? = some f → seen[j]? = some false → f.nullable = true →
       (interpNull f.dataType f.nullable f.metadata).isOk = false → (path ++ "." ++ f.name) ∈ S) →
     Blo S path (endFields fs seen)
-  | .nil, _, _, _, _, _ => by unfold endFields; exact Blo.of_ok _
-  | .cons b m r, [], _, _, _, _ => by unfold endFields; exact Blo.of_panic _
-  | .cons b m r, s :: ss, .nil, hk, _, _ => by simp [Kids] at hk
-  | .cons b m r, s :: ss, .cons (.mk fname fdt fn fmd) rest, hk, h1, h2 => by
+  | .nil, _, _, _, _, _, _ => by unfold endFields; exact Blo.of_ok _
+  | .cons b m r, [], _, _, _, _, _ => by unfold endFields; exact Blo.of_panic _
+  | .cons b m r, s :: ss, .nil, hk, _, _, _ => by simp [Kids] at hk
+  | .cons b m r, s :: ss, .cons (.mk fname fdt fn fmd) rest, hk, hcap, h1, h2 => by
     simp only [Kids] at hk
-    have ih : Blo S path (endFields r ss) := endFields_blo r ss rest hk.2.2.2.2
+    simp only [roomL] at hcap
+    have ih : Blo S path (endFields r ss) := endFields_blo r ss rest hk.2.2.2.2 (by omega)
       (fun j f hj hs hn => h1 (j + 1) f (by simpa [Fields.toList] using hj) (by simpa using hs) hn)
       (fun j f hj hs hn hi => h2 (j + 1) f (by simpa [Fields.toList] using hj) (by simpa using hs) hn hi)
     unfold endFields
@@ -229,11 +231,11 @@ theorem endFields_blo {path : String} {S : List String} : ∀ (fs : BL) (seen : 
           cases hlv : interpNull fdt fn fmd with
           | error e => rw [hlv] at hi; cases hi
           | ok lv =>
-            obtain ⟨b', hb', _⟩ := pushNone_completeH b fdt fn fmd lv hk.2.2.1.wf hk.2.2.1.shape hk.2.2.1.tot hlv
+            obtain ⟨b', hb', _⟩ := pushNone_completeH b fdt fn fmd lv hk.2.2.1.wf hk.2.2.1.shape hk.2.2.1.tot hlv (by omega)
             exact Bl.of_eq_ok hb'
         | false =>
           have hmem := h2 0 (.mk fname fdt fn fmd) (by simp [Fields.toList]) (by simp) hnn hi
-          exact Bl.mono (fun q hq => by rw [List.mem_singleton.1 hq]; exact hmem) (pushNone_bl hk.2.2.1 hk.2.2.2.1)
+          exact Bl.mono (fun q hq => by rw [List.mem_singleton.1 hq]; exact hmem) (pushNone_bl hk.2.2.1 hk.2.2.2.1 (by omega))
 
 /-- the blame set of a struct position (the arm shared by the record presentations in `Spec.blameDT`) -/
 def structS (path : String) (fs : List Field) (keys : List String) (own' : Bool) (inner : List String) : List String :=
@@ -255,7 +257,7 @@ theorem struct_row_bl {pf : SS → R SS} {path : String} {sfs : Fields} {n : Boo
     (hg : GoodH (.struct p len v fs cached next seen) (.struct sfs) n md)
     (ha : At path (.struct sfs) n md (.struct p len v fs cached next seen))
     (hloop : ∀ {β : Type} (k : SS → R β) (s : SS), MidS path sfs s → SeenIs s [] → s.fields = fs → s.next = 0 →
-      (∀ s', MidS path sfs s' → SeenIs s' (knownKeys sfs.toList keys) →
+      (∀ s', MidS path sfs s' → SeenIs s' (knownKeys sfs.toList keys) → 1 ≤ roomL s'.fields →
         Blo (structS path sfs.toList keys own' inner) path (k s')) →
       Blo (structS path sfs.toList keys own' inner) path (pf s >>= k)) :
     Bl (structS path sfs.toList keys own' inner) (ctx (B.struct p len v fs cached next seen).ann (do
@@ -286,7 +288,7 @@ theorem struct_row_bl {pf : SS → R SS} {path : String} {sfs : Fields} {n : Boo
   refine Blo.ctx _ ?_
   rw [hb]
   show Blo _ path (pf _ >>= fun s => s.finishRow >>= fun s => pure s.toB)
-  refine hloop _ _ hm0 hs0 rfl rfl fun s' hm' hs' => ?_
+  refine hloop _ _ hm0 hs0 rfl rfl fun s' hm' hs' hr' => ?_
   refine Blo.bind ?_ fun _ _ => Blo.of_ok _
   unfold SS.finishRow
   refine Blo.bind ?_ fun _ _ => Blo.of_ok _
@@ -302,7 +304,7 @@ theorem struct_row_bl {pf : SS → R SS} {path : String} {sfs : Fields} {n : Boo
     simp only [knownKeys, List.mem_filter]
     refine ⟨hc, any_known_of_get (idx := j) ?_⟩
     simp [List.getElem?_map, hj]
-  refine endFields_blo s'.fields s'.seen sfs hm'.kids ?_ ?_
+  refine endFields_blo s'.fields s'.seen sfs hm'.kids hr' ?_ ?_
   · intro j f hj hsf hn
     apply mem_structS_own
     simp only [structOwnFails, Bool.or_eq_true]
